@@ -1,10 +1,210 @@
-"""Property-specific extra parts of a check (sanitizer runs, second build profile,
-multi-process schedule exploration). Each part returns a harness-style result dict."""
+"""Property-specific parts of a check beyond the main monitor run:
+
+  C01  thorough: the same workload under the plain release profile (wrapping
+       arithmetic, no debug assertions) and the miriops program under Miri
+  C15  the main workload is sharded over 16 processes (the included build
+       scripts read their directories from process-global environment variables)
+  C16  the racer program under ThreadSanitizer (both tiers) and under Miri with
+       many schedule seeds (thorough)
+
+Each part returns a harness-style result dict. A sanitizer REPORT is a
+violation (its log is the replay); a sanitizer that cannot be built or run is
+recorded in the evidence as 'not run' and never turns into a violation.
+"""
+import concurrent.futures
+import os
+import re
+import subprocess
+import time
+
+NIGHTLY = "+nightly"
+TARGET_TRIPLE = "x86_64-unknown-linux-gnu"
+
+
+def _empty(**kw):
+    r = {"evaluations": 0, "distinct_nontrivial": 0, "histogram": {}, "samples": [], "violations": [],
+         "exhaustive_parts": [], "notes": [], "wall_s": 0}
+    r.update(kw)
+    return r
+
+
+# ------------------------------------------------------------------ C15 ----
+
+def run_main(drv, binary, prop, tier, seed):
+    """main monitor run; C15 is sharded over processes"""
+    if prop != "C15":
+        return drv.run_harness(binary, prop, tier, seed)
+    n = int(os.environ.get("VERIF_SHARDS", "16"))
+    t0 = time.time()
+    with concurrent.futures.ThreadPoolExecutor(max_workers=n) as ex:
+        futs = [ex.submit(drv.run_harness, binary, prop, tier, seed, "shard%d" % i, ["--shard", "%d/%d" % (i, n)])
+                for i in range(n)]
+        results = [f.result() for f in futs]
+    for r in results:
+        if r.get("crashed"):
+            return r
+    tot = drv.merge([("main", r) for r in results])
+    tot["wall_s"] = time.time() - t0
+    # merge() keeps per-signature entries per shard: fold equal signatures together
+    sigs = {}
+    for v in tot["violations"]:
+        e = sigs.setdefault(v["signature"], {"signature": v["signature"], "count": 0, "witnesses": []})
+        e["count"] += v["count"]
+        e["witnesses"] = (e["witnesses"] + v["witnesses"])[:5]
+    tot["violations"] = list(sigs.values())
+    tot["notes"] = sorted(set(tot["notes"]))
+    return tot
+
+
+# ------------------------------------------------------------- sanitizers ----
+
+def _tsan_binary(drv):
+    env = {"CARGO_TARGET_DIR": os.path.join(drv.TARGET, "tsan"), "RUSTFLAGS": "-Zsanitizer=thread"}
+    rc, out = drv.cargo(["build", "--offline", "-Zbuild-std", "--target", TARGET_TRIPLE, "--release", "--bin", "racer"],
+                        toolchain=NIGHTLY, extra_env=env, timeout=1800)
+    if rc != 0:
+        return None, out[-1500:]
+    return os.path.join(drv.TARGET, "tsan", TARGET_TRIPLE, "release", "racer"), ""
+
+
+def _first_repo_frame(block):
+    for l in block.splitlines():
+        m = re.search(r"#\d+\s+(\S+).*?(/repo/[^\s:]+|precis[_-][a-z]+[^\s]*)", l)
+        if m:
+            return re.sub(r":\d+.*$", "", m.group(0).split()[-1])
+    return "unknown-frame"
+
+
+def tsan_part(drv, tier, seed, extra_cov):
+    t0 = time.time()
+    binary, err = _tsan_binary(drv)
+    if binary is None:
+        extra_cov["sanitizer_tsan"] = "not run: build failed: %s" % err[-300:]
+        return _empty(notes=["ThreadSanitizer part not run (build failed)"])
+    runs = 20 if tier == "quick" else 200
+    res = _empty()
+    reports = {}
+    calls = 0
+    overlap = 0
+    env = dict(os.environ)
+    env["TSAN_OPTIONS"] = "halt_on_error=0 report_signal_unsafe=0 exitcode=66"
+    for k in range(runs):
+        threads = [8, 16, 32][k % 3]
+        cmd = [binary, "selftest", "--threads", str(threads), "--rounds", "2", "--seed", str(seed * 1000 + k),
+               "--spin-us", "200"]
+        try:
+            p = subprocess.run(cmd, env=env, stdout=subprocess.PIPE, stderr=subprocess.PIPE, text=True, timeout=300)
+        except subprocess.TimeoutExpired:
+            res["notes"].append("ThreadSanitizer run %d hit the watchdog (not a verdict)" % k)
+            continue
+        m = re.search(r"calls=(\d+) mismatches=(\d+) first_call_overlap=(\d+)", p.stdout)
+        if m:
+            calls += int(m.group(1))
+            overlap += int(m.group(3))
+            if int(m.group(2)) > 0:
+                reports.setdefault("tsan-build:result-mismatch", []).append(p.stdout[-1500:])
+        for block in re.split(r"(?==================\nWARNING: ThreadSanitizer)", p.stderr):
+            if "WARNING: ThreadSanitizer" in block:
+                reports.setdefault("tsan:data-race@%s" % _first_repo_frame(block), []).append(block[:4000])
+        if p.returncode not in (0, 66) and "ThreadSanitizer" not in p.stderr:
+            res["notes"].append("ThreadSanitizer run %d exited with %s: %s" % (k, p.returncode, p.stderr[-300:]))
+    res["evaluations"] = calls
+    res["distinct_nontrivial"] = runs
+    res["histogram"] = {"processes": runs, "static calls under ThreadSanitizer": calls,
+                        "sum of threads overlapping the first call": overlap,
+                        "distinct race reports": len(reports)}
+    res["samples"] = [{"class": "tsan", "case": "racer selftest --threads 8|16|32 --rounds 2 (x%d processes)" % runs}]
+    for sig, blocks in reports.items():
+        res["violations"].append({"signature": sig, "count": len(blocks), "log": blocks[0],
+                                  "witnesses": [{"op": "racer under ThreadSanitizer", "case": "seed=%d" % seed,
+                                                 "expected": "no data race report",
+                                                 "observed": blocks[0][:600]}]})
+    res["wall_s"] = time.time() - t0
+    extra_cov["sanitizer_tsan"] = "ran %d processes, %d calls, %d distinct reports" % (runs, calls, len(reports))
+    return res
+
+
+def _miri(drv, bin_name, prog_args, flags, timeout):
+    env = {"CARGO_TARGET_DIR": os.path.join(drv.TARGET, "miri"), "MIRIFLAGS": flags}
+    return drv.cargo(["miri", "run", "--offline", "--bin", bin_name, "--"] + prog_args, toolchain=NIGHTLY,
+                     extra_env=env, timeout=timeout)
+
+
+def _miri_result(name, rc, out, calls_re, extra_cov, key, t0, sample):
+    res = _empty()
+    calls = sum(int(x) for x in re.findall(calls_re, out))
+    res["evaluations"] = calls
+    res["distinct_nontrivial"] = len(re.findall(calls_re, out))
+    res["histogram"] = {"calls interpreted by Miri": calls}
+    res["samples"] = [{"class": "miri", "case": sample}]
+    res["wall_s"] = time.time() - t0
+    ub = "Undefined Behavior" in out or "data race" in out.lower() or re.search(r"error: .*(memory leak|deadlock)", out)
+    if ub:
+        i = out.find("error")
+        res["violations"].append({"signature": "miri:%s" % name, "count": 1, "log": out[-6000:],
+                                  "witnesses": [{"op": "%s under Miri" % name, "case": sample,
+                                                 "expected": "no undefined behaviour / data race report",
+                                                 "observed": out[i:i + 800]}]})
+        extra_cov[key] = "Miri reported an error"
+    elif rc != 0 or calls == 0:
+        res["notes"].append("Miri part '%s' not conclusive (rc=%s): %s" % (name, rc, out[-300:]))
+        extra_cov[key] = "not run / failed without a report (rc=%s)" % rc
+        res["distinct_nontrivial"] = 0
+    else:
+        extra_cov[key] = "interpreted %d calls, no report" % calls
+    return res
+
+
+def miri_racer_part(drv, tier, seed, extra_cov):
+    t0 = time.time()
+    seeds = 16 if tier == "thorough" else 2
+    try:
+        rc, out = _miri(drv, "racer", ["selftest", "--threads", "4", "--rounds", "1", "--seed", str(seed), "--spin-us", "0"],
+                        "-Zmiri-many-seeds=0..%d" % seeds, 4 * 3600)
+    except subprocess.TimeoutExpired:
+        extra_cov["sanitizer_miri_racer"] = "not run: watchdog"
+        return _empty(notes=["Miri racer part hit the watchdog (not a verdict)"])
+    return _miri_result("racer", rc, out, r"RACER .*? calls=(\d+)", extra_cov, "sanitizer_miri_racer", t0,
+                        "racer selftest --threads 4 under -Zmiri-many-seeds=0..%d (that many schedules)" % seeds)
+
+
+def miri_ops_part(drv, tier, seed, extra_cov):
+    t0 = time.time()
+    n = 8
+
+    def one(i):
+        try:
+            return _miri(drv, "miriops", ["--part", "%d/%d" % (i, n)], "", 4 * 3600)
+        except subprocess.TimeoutExpired:
+            return (1, "watchdog")
+    # build once, then the parts in parallel
+    rc0, out0 = one(0)
+    outs = [(rc0, out0)]
+    with concurrent.futures.ThreadPoolExecutor(max_workers=n) as ex:
+        outs += list(ex.map(one, range(1, n)))
+    rc = max(r for r, _ in outs)
+    out = "\n".join(o for _, o in outs)
+    return _miri_result("miriops", rc, out, r"MIRIOPS .*? calls=(\d+)", extra_cov, "sanitizer_miri_ops", t0,
+                        "miriops: every public operation on 13 hostile inputs, %d parts" % n)
 
 
 def extra_parts(drv, prop, tier, seed, extra_cov):
-    return []
+    out = []
+    if prop == "C01" and tier == "thorough":
+        rel = drv.build("release")
+        if rel is None:
+            raise drv.Inconclusive("release build of the harness failed")
+        out.append(("same:release", drv.run_harness(rel, prop, tier, seed, tag="release")))
+        out.append(("miri", miri_ops_part(drv, tier, seed, extra_cov)))
+    if prop == "C16":
+        out.append(("tsan", tsan_part(drv, tier, seed, extra_cov)))
+        if tier == "thorough":
+            out.append(("miri", miri_racer_part(drv, tier, seed, extra_cov)))
+    return out
 
 
 def setup(drv):
+    """pre-build what the quick tier needs beyond the two harness profiles"""
+    binary, err = _tsan_binary(drv)
+    drv.log("build tsan racer: %s" % ("ok" if binary else "FAILED (C16 will run without ThreadSanitizer): " + err[-300:]))
     return True
